@@ -458,7 +458,133 @@ def oracle_rtx_timer(case, impl):
     return hits
 
 
+def oracle_task_ends(case, impl):
+    """C08: once our FIN is out (FinWait1/FinWait2/LastAck) the connection's task ends within a bounded time under
+    any network behaviour: every Pending poll in those states leaves the inactivity timer armed; with the peer silent
+    the deadline is never pushed out, and a poll at or after it ends the task."""
+    tr = Trace(case, impl)
+    hits = []
+    deadline = None        # inactivity deadline after the previous poll (a local-FIN-or-later state), peer silent since
+    transport_ok = True
+    for ev in tr.events:
+        if ev["op"] == "new":
+            deadline = None
+            transport_ok = True
+        if ev["op"] == "tmode":
+            # a poll that stops early on a blocked local transport has not reached the arming code; it is polled
+            # again when the transport wakes it (local condition, not network behaviour): not judged
+            transport_ok = ev["args"][:1] == ["ok"]
+            deadline = None
+        if not transport_ok:
+            continue
+        if ev["op"] in ("inject", "chanclose"):
+            deadline = None            # a packet from the peer legitimately restarts the timer
+        if ev["op"] != "poll" or "fp" not in ev:
+            continue
+        st = ev["fp"].get("st", "")
+        closing = st.startswith(("FinWait1", "FinWait2", "LastAck"))
+        if ev["res"].startswith("ready"):
+            deadline = None
+            continue
+        now = ev["t"]
+        if deadline is not None and now >= deadline:
+            hits.append({"sig": {"oracle": "task_ends", "what": "alive_past_deadline"},
+                         "text": f"poll at t={now} ns in {st.split(';')[0]} returned Pending although the inactivity deadline {deadline} had passed with the peer silent"})
+            deadline = None
+        if not closing:
+            deadline = None
+            continue
+        ti = ev["fp"].get("t_inact", "-")
+        if ti == "-":
+            hits.append({"sig": {"oracle": "task_ends", "what": "no_timer_after_local_fin"},
+                         "text": f"poll at t={now} ns left the connection in {st.split(';')[0]} with no inactivity timer armed: if the peer stays silent the task never ends"})
+            deadline = None
+            continue
+        ti = int(ti)
+        if deadline is not None and ti > deadline:
+            hits.append({"sig": {"oracle": "task_ends", "what": "deadline_extended"},
+                         "text": f"poll at t={now} ns in {st.split(';')[0]} moved the inactivity deadline from {deadline} to {ti} although the peer was silent"})
+        deadline = ti
+    return hits[:2]
+
+
+def _shift_hex(hx, dseq, dack):
+    if hx == "-" or len(hx) < 40:
+        return hx
+    b = bytearray(bytes.fromhex(hx))
+    b[16:18] = ((int.from_bytes(b[16:18], "big") + dseq) % 65536).to_bytes(2, "big")
+    b[18:20] = ((int.from_bytes(b[18:20], "big") + dack) % 65536).to_bytes(2, "big")
+    return b.hex()
+
+
+def _unshift_out(line, d1, d2):
+    """Map an output line of the relabelled run back to the original labels."""
+    import re
+
+    def dg(m):
+        body = m.group(1)
+        return "out=[" + ",".join(_shift_hex(h, -d1, -d2) for h in body.split(",") if h) + "]"
+    line = re.sub(r"out=\[([^\]]*)\]", dg, line)
+
+    def fld(name, d):
+        nonlocal line
+        line = re.sub(r"(;|=)" + name + r"=(\d+)", lambda m: f"{m.group(1)}{name}={(int(m.group(2)) - d) % 65536}", line)
+    for n in ("seq", "lss"):
+        fld(n, d1)
+    for n in ("lc", "lsa"):
+        fld(n, d2)
+    line = re.sub(r"our_fin:;(\d+)", lambda m: f"our_fin:;{(int(m.group(1)) - d1) % 65536}", line)
+    line = re.sub(r"remote_fin:;(\d+)", lambda m: f"remote_fin:;{(int(m.group(1)) - d2) % 65536}", line)
+    return line
+
+
+def oracle_isn_relabel(case, impl):
+    """C09 (whole connection): the same scenario with both initial sequence numbers moved (so that the 16-bit
+    wrap falls inside it) produces the same packet trace and stream-call results up to that relabelling."""
+    import hashlib
+    import re
+    import subprocess
+    from gens.vsock import HBIN
+    if not case or not case[0].startswith("vs new"):
+        return []
+    m1, m2 = re.search(r"our=(\d+)", case[0]), re.search(r"rem=(\d+)", case[0])
+    our = int(m1.group(1)) if m1 else 101
+    rem = int(m2.group(1)) if m2 else 1
+    h = int(hashlib.sha1("\n".join(case).encode()).hexdigest(), 16)
+    # land our/their numbering a few packets below the wrap
+    d1 = (65535 - (h % 23) - our) % 65536
+    d2 = (65535 - ((h >> 8) % 23) - rem) % 65536
+    if d1 == 0 and d2 == 0:
+        d1 = 1
+    shifted = []
+    for l in case:
+        t = l.split()
+        if t[:2] == ["vs", "new"]:
+            l = re.sub(r"our=\d+", f"our={(our + d1) % 65536}", l) if m1 else l + f" our={(our + d1) % 65536}"
+            l = re.sub(r"rem=\d+", f"rem={(rem + d2) % 65536}", l) if m2 else l + f" rem={(rem + d2) % 65536}"
+        elif t[:2] == ["vs", "inject"] and len(t) == 3:
+            l = f"vs inject {_shift_hex(t[2], d2, d1)}"
+        shifted.append(l)
+    try:
+        p = subprocess.run([HBIN], input="\n".join(shifted) + "\n", capture_output=True, text=True, timeout=120)
+    except Exception:
+        return []
+    out2 = p.stdout.split("\n")[:len(case)]
+    hits = []
+    for i, (l, a, b) in enumerate(zip(case, impl, out2)):
+        if a.startswith("PANIC") and b.startswith("PANIC"):
+            continue
+        b2 = _unshift_out(b, d1, d2)
+        if a != b2:
+            hits.append({"sig": {"oracle": "isn_relabel", "what": "trace_differs"},
+                         "text": f"op {i} `{l[:60]}`: with initial sequence numbers moved by (+{d1}, +{d2}) (ours {our}->{(our + d1) % 65536}, theirs {rem}->{(rem + d2) % 65536}) the outcome differs beyond relabelling: original `{a[:160]}` relabelled run `{b2[:160]}`"})
+            break
+    return hits
+
+
 ALL = {
+    "isn_relabel": oracle_isn_relabel,
+    "task_ends": oracle_task_ends,
     "retx_cap": oracle_retx_cap,
     "ack_honesty": oracle_ack_honesty,
     "rtx_timer": oracle_rtx_timer,
